@@ -47,7 +47,9 @@ class H:
     def S(self, t): return self.elems[self.suc[t]]
 
 
-def Inv(h, hole=None):
+def Inv(h, hole=None, X=None):
+    """X: optional predicate over tasks - the tasks exempt from W1r (detached subtrees that still carry a WBS label, as they exist between the
+    release loop and the attach loop of the children setter); None = nobody"""
     f2 = And(c_ != null, h.par[c_] != null) if hole is None else And(c_ != null, h.par[c_] != null, c_ != hole)
     return {
         'C01/F1-listed-child-reports-that-parent': ForAll([t_, c_], Implies(And(t_ != null, mem(h.ch(t_), c_)), And(h.par[c_] == t_, c_ != null)), patterns=[mem(h.ch(t_), c_)]),
@@ -60,7 +62,7 @@ def Inv(h, hole=None):
         'O2-link-list-objects-exist': ForAll([t_], Implies(t_ != null, And(h.pre[t_] != LR.null, h.suc[t_] != LR.null)), patterns=[h.pre[t_], h.suc[t_]]),
         'N-null-has-no-parent': h.par[null] == null,
         'C11/W1-owner-follows-the-hierarchy': ForAll([t_, c_], Implies(Desc(h.par, t_, c_), h.own[c_] == h.own[t_]), patterns=[Desc(h.par, t_, c_)]),
-        'C11/W1r-owner-only-if-reachable-from-that-WBS-root': ForAll([c_], Implies(And(c_ != null, h.own[c_] != W.null), insub(h.par, h.root[h.own[c_]], c_)), patterns=[h.own[c_]]),
+        'C11/W1r-owner-only-if-reachable-from-that-WBS-root': ForAll([c_], Implies(And(c_ != null, h.own[c_] != W.null, *([] if X is None else [Not(X(c_))])), insub(h.par, h.root[h.own[c_]], c_)), patterns=[h.own[c_]]),
         'C11/WR-hidden-roots': ForAll([w_], Implies(w_ != W.null, And(h.root[w_] != null, h.own[h.root[w_]] == w_, h.par[h.root[w_]] == null, h.tid[h.root[w_]] == EMPTY)), patterns=[h.root[w_]]),
         'C01/X1-no-link-along-the-hierarchy': ForAll([a_, b_], Implies(And(b_ != null, mem(h.P(b_), a_)), And(Not(Desc(h.par, a_, b_)), Not(Desc(h.par, b_, a_)), a_ != b_)), patterns=[mem(h.P(b_), a_)]),
         'C05/U1-ids-unique-within-every-tree': ForAll([a_, b_], Implies(And(a_ != null, b_ != null, a_ != b_, rootof(h.par, a_) == rootof(h.par, b_)), h.tid[a_] != h.tid[b_]),
@@ -191,7 +193,11 @@ def c_children(eng, st, recv, args, kws, node):
 
 def c_attach(eng, st, recv, args, kws, node):
     # Task._attach(wbs): sets the owner of the whole subtree when wbs is not None (its own unit: attach_unit)
-    h = H(eng, st); Wn = args[0].e
+    h = H(eng, st); Wn = args[0].e; me = recv.e
+    for lab, g in (('task-non-null', me != null), ('C01/F4-no-task-is-its-own-ancestor', Acyc(h.par)), ('N-null-has-no-parent', h.par[null] == null), ('C01/F1-below-the-task', F1below(h, me)),
+                   ('C01/F2-below-the-task', F2below(h, me)), ('C01/F3-no-child-listed-twice', Inv(h)['C01/F3-no-child-listed-twice']),
+                   ('children-list-objects-exist', ForAll([t_], Implies(t_ != null, h.chl[t_] != LR.null), patterns=[h.chl[t_]]))):
+        st.oblige(f'req@_attach/{lab}', g, f'@{node.lineno}')
     eng.write(st, 'Task._Task__wbs', Lambda([x], If(And(Wn != W.null, insub(h.par, recv.e, x)), Wn, h.own[x])))
     return [(st, V(None, NONE))]
 
@@ -214,20 +220,26 @@ def c_check_links(eng, st, recv, args, kws, node):
     return [(ok, V(None, NONE)), (exc, Raise('RuntimeError'))]
 
 
-def parent_setter_call(eng, st, task, newparent, line):
-    """the contract of Task.parent.setter used at a call site (also: its own nested call through roots.append)"""
+def exempt_ok(h, X, newparent):
+    return And(Implies(newparent != null, Not(X(newparent))), ForAll([w_], Implies(w_ != W.null, Not(X(h.root[w_]))), patterns=[h.root[w_]]))
+
+
+def parent_setter_call(eng, st, task, newparent, line, X=None):
+    """the contract of Task.parent.setter used at a call site (also: its own nested call through roots.append).  X: tasks exempt from W1r before
+    the call (see Inv); after the call the subtree of `task` is no longer exempt"""
     h0 = H(eng, st)
     only = getattr(eng, 'oblige_only', None)
-    for lab, g in Inv(h0, hole=task).items():
+    for lab, g in Inv(h0, hole=task, X=X).items():
         if (only is None and lab != U1) or (only is not None and lab in only): st.oblige(f'req@parent.setter/{lab}', g, f'@{line}')
     st.oblige('req@parent.setter/task-is-no-hidden-root', And(task != null, ForAll([w_], Implies(w_ != W.null, h0.root[w_] != task))), f'@{line}')
+    if X is not None: st.oblige('req@parent.setter/exempt-set-spares-the-new-parent-and-the-hidden-roots', exempt_ok(h0, X, newparent), f'@{line}')
     clash = clashfn(newparent, task, h0)
     rc = raise_cond(h0, task, newparent, clash)
     exc = st.fork(rc); ok = st.fork(Not(rc))
     exc.assume(Implies(links_cross(h0, task, newparent), links_cross_def(h0, task, newparent)))       # reveal: a caller may have to show that the callee cannot reject
     for k in HEAP_KEYS: eng.havoc(ok, k)
     h1 = H(eng, ok)
-    post = Inv(h1)
+    post = Inv(h1, X=None if X is None else (lambda c: And(X(c), Not(insub(h0.par, task, c)))))
     if only is None: post.pop(U1)
     else: post = {k: v for k, v in post.items() if k in only}
     for g in list(post.values()) + list(effect(h0, h1, task, newparent).values()): ok.assume(g)
@@ -237,7 +249,8 @@ def parent_setter_call(eng, st, task, newparent, line):
 def c_facade_append(eng, st, recv, args, kws, node):
     # _ChildrenList.append(task)  ==  task.parent = facade.__parent   (proved for the body in its own unit)
     task = args[0].e; newparent = Select(eng.field(st, 'ChildrenFacade', '_ChildrenList__parent'), recv.e)
-    return parent_setter_call(eng, st, task, newparent, node.lineno)
+    X0 = st.ghost.get('X')
+    return parent_setter_call(eng, st, task, newparent, node.lineno, X=None if X0 is None else (lambda c: X0[c]))
 
 
 class TaskListLit:
@@ -268,23 +281,26 @@ def parent_setter_unit(kind='core'):
         def req(lab):
             def f(c):
                 h = H(c.eng, c.st)
-                extra = {'task-is-no-hidden-root': And(c['self'] != null, ForAll([w_], Implies(w_ != W.null, h.root[w_] != c['self'])))}
-                return {**Inv(h, hole=c['self']), **extra}[lab]
+                X0 = c.st.ghost['X']
+                extra = {'task-is-no-hidden-root': And(c['self'] != null, ForAll([w_], Implies(w_ != W.null, h.root[w_] != c['self']))),
+                         'exempt-set-spares-the-new-parent-and-the-hidden-roots': exempt_ok(h, lambda t: X0[t], c['parent'])}
+                return {**Inv(h, hole=c['self'], X=None if ids else (lambda t: X0[t])), **extra}[lab]
             return f
+        Xpost = lambda c: (lambda t: And(c.pre.ghost['X'][t], Not(insub(pre_h(c).par, c['self'], t))))
         rc = lambda c: raise_cond(pre_h(c), c['self'], c['parent'], clashfn(c['parent'], c['self'], pre_h(c)))
         if ids:
-            fc = {'sig': {'self': T, 'parent': T},
+            fc = {'sig': {'self': T, 'parent': T}, 'ghost': {'X': S('SET', SET)},
                   'requires': [(l_, req(l_)) for l_ in IDS_NEED + ['task-is-no-hidden-root']],
                   'raises': {'RuntimeError': []},
                   'ensures': [(U1, lambda c: Inv(H(c.eng, c.st))[U1])]}
             e = Engine(F, 'Task.parent.setter', contracts, TASK_CLASSES, fc, plugins=[ListPlugin(), TaskListLit]); e.oblige_only = IDS_NEED
             return e, LIST_AX + GRAPH_AX + ROOT_AX
-        fc = {'sig': {'self': T, 'parent': T},
-              'requires': [(l_, req(l_)) for l_ in INV_LABELS + ['task-is-no-hidden-root'] if l_ != U1],
+        fc = {'sig': {'self': T, 'parent': T}, 'ghost': {'X': S('SET', SET)},
+              'requires': [(l_, req(l_)) for l_ in INV_LABELS + ['task-is-no-hidden-root', 'exempt-set-spares-the-new-parent-and-the-hidden-roots'] if l_ != U1],
               'raises': {'RuntimeError': [('C15/parents-unchanged', lambda c: H(c.eng, c.st).par == pre_h(c).par), ('C15/lists-unchanged', lambda c: H(c.eng, c.st).elems == pre_h(c).elems),
                                           ('C15/owners-unchanged', lambda c: H(c.eng, c.st).own == pre_h(c).own),
                                           ('C01,C05,C11/rejected-only-for-a-stated-reason', rc)]},
-              'ensures': [(l_, (lambda l_: lambda c: Inv(H(c.eng, c.st))[l_])(l_)) for l_ in INV_LABELS if l_ != U1] +
+              'ensures': [(l_, (lambda l_: lambda c: Inv(H(c.eng, c.st), X=Xpost(c))[l_])(l_)) for l_ in INV_LABELS if l_ != U1] +
                          [(l_, (lambda l_: lambda c: effect(pre_h(c), H(c.eng, c.st), c['self'], c['parent'])[l_])(l_)) for l_ in EFFECT_LABELS] +
                          [('C01,C05,C11/accepted-only-if-no-reason-to-reject', lambda c: Not(rc(c)))]}
         return Engine(F, 'Task.parent.setter', contracts, TASK_CLASSES, fc, plugins=[ListPlugin(), TaskListLit]), LIST_AX + GRAPH_AX
@@ -509,6 +525,18 @@ KID_AX = [
 ]
 
 
+def F1below(h, t):
+    """F1 for the children lists of t and of the tasks below t"""
+    return ForAll([t_, c_], Implies(And(t_ != null, insub(h.par, t, t_), mem(h.ch(t_), c_)), And(h.par[c_] == t_, c_ != null)), patterns=[mem(h.ch(t_), c_)])
+
+
+def walk_pre(h, me):
+    """pre-condition of the ownership walks _attach / _detach: what they read - the children lists at and below the task (the walks also run on the
+    transient heaps of the children setter, where the list of the task's FORMER parent still names it)"""
+    return And(me != null, Acyc(h.par), h.par[null] == null, F1below(h, me), F2below(h, me), Inv(h)['C01/F3-no-child-listed-twice'],
+               ForAll([t_], Implies(t_ != null, h.chl[t_] != LR.null), patterns=[h.chl[t_]]))
+
+
 def owner_walk_unit(attach):
     name = '_attach' if attach else '_detach'
 
@@ -517,11 +545,7 @@ def owner_walk_unit(attach):
         active = (lambda c: c['wbs'] != W.null) if attach else (lambda c: BoolVal(True))
 
         def pre(c):
-            h = H(c.eng, c.st)
-            return And(c['self'] != null, Acyc(h.par), h.par[null] == null,
-                       Inv(h)['C01/F1-listed-child-reports-that-parent'], Inv(h)['C01/F2-parent-lists-its-child'], Inv(h)['C01/F3-no-child-listed-twice'],
-                       ForAll([t_], Implies(t_ != null, h.chl[t_] != LR.null), patterns=[h.chl[t_]]),
-                       ForAll([t_, c_], Implies(And(t_ != null, mem(h.ch(t_), c_)), height(c_) < height(t_)), patterns=[mem(h.ch(t_), c_)]), ForAll([t_], height(t_) >= 0))
+            return walk_pre(H(c.eng, c.st), c['self'])
 
         def post(h0, h1, me, wv, act):
             return {'C11/owner-of-the-whole-subtree-set': ForAll([x], h1.own[x] == If(And(act, insub(h0.par, me, x)), wv, h0.own[x]), patterns=[h1.own[x]]),
@@ -530,7 +554,8 @@ def owner_walk_unit(attach):
         def c_rec(eng, st, recv, args, kws, node):
             h0 = H(eng, st); me = st.env['self'].e
             st.oblige('req@recursive-call/child-non-null', recv.e != null, f'@{node.lineno}')
-            st.oblige('dec/C14/height-decreases-at-the-recursive-call', And(height(recv.e) < height(me), height(recv.e) >= 0), f'@{node.lineno}')
+            st.oblige('req@recursive-call/children-lists-below-the-child', walk_pre(h0, recv.e), f'@{node.lineno}')
+            st.oblige('dec/C14/height-decreases-at-the-recursive-call', And(hgt(h0.par, recv.e) < hgt(h0.par, me), hgt(h0.par, recv.e) >= 0), f'@{node.lineno}')
             wv = args[0].e if attach else W.null
             act = (wv != W.null) if attach else BoolVal(True)
             eng.havoc(st, 'Task._Task__wbs'); h1 = H(eng, st)
@@ -548,8 +573,8 @@ def owner_walk_unit(attach):
               'loops': {0: {'fingerprint': fp, 'invariant': [('owners-set-for-the-children-visited-so-far', inv)], 'havoc_heap': ['Task._Task__wbs']}},
               'ensures': [(l_, (lambda l_: lambda c: post(H(c.eng, c.pre), H(c.eng, c.st), c['self'], target(c), active(c))[l_])(l_)) for l_ in
                           ['C11/owner-of-the-whole-subtree-set', 'C16/nothing-else-changes']]}
-        return Engine(F, f'Task.{name}', contracts, TASK_CLASSES, fc, plugins=[LinkPlugin('pre')]), LIST_AX + GRAPH_AX + KID_AX
-    return Unit(f'Task.{name}', F, build, ['C11', 'C16'], timeout_ms=15000)
+        return Engine(F, f'Task.{name}', contracts, TASK_CLASSES, fc, plugins=[LinkPlugin('pre')]), LIST_AX + GRAPH_AX + KID_AX + MEASURE_AX
+    return Unit(f'Task.{name}', F, build, ['C11', 'C14', 'C16'], timeout_ms=15000)
 
 
 def set_children_unit():
